@@ -211,6 +211,9 @@ def gen_case(rng):
                         for _ in range(n)]
             xfs = [rng.choice(XFS) for _ in range(rng.choice([0, 0, 1, 1, 2, 3]))]
             ops.append({"op": "add", "xfs": xfs, "rows": rows})
+            if not xfs:
+                # the index list in another array-like form (the harness' transforms index it as an ndarray)
+                ops[-1]["iform"] = rng.choice(["nd32", "nd64", "list", "tuple"])
         elif r < 0.50:
             # out-of-range index among valid ones
             hi = max(cur_cap, 1)
@@ -218,7 +221,7 @@ def gen_case(rng):
             rows.insert(rng.randint(0, len(rows)), [cur_cap + rng.randint(0, 3), fresh()])
             ops.append({"op": "add", "xfs": [], "rows": rows})
         elif r < 0.54:
-            ops.append({"op": "badadd", "kind": rng.choice(["length", "missing", "extra"]),
+            ops.append({"op": "badadd", "kind": rng.choice(["length", "missing", "extra", "text", "inner"]),
                         "rows": [[rng.randrange(max(cur_cap, 1)), fresh()] for _ in range(2)] if cur_cap else []})
         elif r < 0.60:
             ops.append({"op": "clear"})
@@ -316,10 +319,13 @@ def run_case(case):
             if kind == "add":
                 ws = [tuple(r) for r in op["rows"]]
                 idx = np.array([w[0] for w in ws], dtype=np.int32)
+                iform = op.get("iform", "nd32")
+                idx_arg = {"nd32": idx, "nd64": idx.astype(np.int64), "list": [int(i) for i in idx],
+                           "tuple": tuple(int(i) for i in idx)}[iform]
                 rows = make_rows(fields, [w[1] for w in ws])
                 err = None
                 try:
-                    store.add(idx, rows, {}, [XF[x] for x in op["xfs"]])
+                    store.add(idx_arg, rows, {}, [XF[x] for x in op["xfs"]])
                 except IndexError:
                     err = "err index"
                 except ValueError:
@@ -355,6 +361,19 @@ def run_case(case):
                     if len(fields) < 2:
                         continue
                     del rows[fields[-1]]
+                elif op["kind"] == "text":
+                    # a value the field's dtype cannot hold
+                    num = [f for f in fields if FIELD_DESC[f][1] != object]
+                    if not num:
+                        continue
+                    bad_arr = np.array(rows[num[-1]], dtype=object)
+                    bad_arr.reshape(-1)[-1] = "abc"
+                    rows[num[-1]] = bad_arr
+                elif op["kind"] == "inner":
+                    # wrong inner shape (also for an object field, whose declared shape is ())
+                    f_ = fields[-1]
+                    rows[f_] = [(1, 2, 3)] * len(ws) if FIELD_DESC[f_][1] == object else \
+                        np.zeros((len(ws), 7, 3), dtype=FIELD_DESC[f_][1])
                 else:
                     rows["zzz"] = np.zeros(len(ws))
                 try:
